@@ -37,7 +37,15 @@ fn is_assign(op: &str) -> bool {
 }
 
 fn eval_op(prog: Prog, parse_exec: bool) -> Op {
-    if parse_exec {
+    // half of the parse + exec cases evaluate on a Context that is the ONLY strong owner of its handle
+    // (split by the program's statement count: no extra draw, the other samples of a seed stay what they were)
+    let n = match &prog {
+        Prog::Stmts(xs) => xs.len(),
+        _ => 0,
+    };
+    if parse_exec && n % 2 == 0 {
+        Op::ExecSole { prog, slot: 0 }
+    } else if parse_exec {
         Op::ParseExec { prog, ctx: CtxRef::Slot(0), times: 1 }
     } else {
         Op::Exec { prog, ctx: CtxRef::Slot(0) }
